@@ -85,6 +85,46 @@ def expand_mul(expr):
     return e2
 
 
+_LETTERS = {"occ": "ijklmno", "virt": "abcdefgh", "general": "pqrstuvw"}
+
+
+def rename_dummies(expr, r, fresh_prob=0.5):
+    """Per term an independent random injective renaming of the contracted
+    indices within their (space, spin) class - a pure alpha-renaming of
+    summation indices, term by term (legal input for every operation that is
+    specified on values).  Returns a new Expr with the same assumptions."""
+    from sympy import Add
+    from adcgen.indices import get_symbols
+    out = []
+    for term in expr.terms:
+        taken = {s.name for s in term.idx}
+        groups = {}
+        for s_ in term.contracted:
+            groups.setdefault((s_.space, s_.spin), []).append(s_)
+        sub = {}
+        for (sp, spin), lst in sorted(groups.items()):
+            pool = [s_.name for s_ in lst]
+            for _ in range(len(lst)):
+                if r.random() < fresh_prob:
+                    n = 0
+                    while True:
+                        cands = [c + (str(n) if n else "")
+                                 for c in _LETTERS[sp]]
+                        cands = [c for c in cands
+                                 if c not in taken and c not in pool]
+                        if cands:
+                            pool.append(r.choice(cands))
+                            break
+                        n += 1
+            r.shuffle(pool)
+            for s_, new in zip(lst, pool):
+                if new != s_.name:
+                    sub[s_] = get_symbols(new, spin if spin else None)[0]
+        out.append(term.sympy.subs(sub, simultaneous=True) if sub
+                   else term.sympy)
+    return Expr(Add(*out), **expr.assumptions)
+
+
 def has_spin(ctx):
     return any(ix["p"] for ix in ctx.idx)
 
